@@ -40,6 +40,22 @@ func (e *Exec) clause(x *SX, st *State, names map[string]string, pos token.Pos, 
 }
 
 // lookupVar resolves a Go variable name visible at pos (or at the call sites of the inlined frames) to its term.
+func (e *Exec) lookupAt(st *State, name string, p token.Pos) (string, bool) {
+	for _, pkg := range e.w.Pkgs {
+		sc := pkg.Types.Scope().Innermost(p)
+		if sc == nil {
+			continue
+		}
+		_, obj := sc.LookupParent(name, p)
+		if v, ok := obj.(*types.Var); ok {
+			if t, ok := st.env[v]; ok {
+				return t, true
+			}
+		}
+	}
+	return "", false
+}
+
 func (e *Exec) lookupVar(st *State, name string, pos token.Pos) (string, bool) {
 	tryAt := func(p token.Pos) (string, bool) {
 		for _, pkg := range e.w.Pkgs {
@@ -106,6 +122,16 @@ func (ce *clauseEnv) tr(x *SX, bound map[string]bool, old bool) *SX {
 				return atom(t)
 			}
 			panic(unsupported{"contract refers to unknown entry value " + a, token.NoPos})
+		}
+		if strings.HasSuffix(a, "@outer") {
+			// the variable of that name in the function that wrote the call (not the inlined callee's own variable)
+			n := strings.TrimSuffix(a, "@outer")
+			for i := len(ce.e.callSites) - 1; i >= 0; i-- {
+				if t, ok := ce.e.lookupAt(ce.st, n, ce.e.callSites[i]); ok {
+					return atom(t)
+				}
+			}
+			panic(unsupported{"contract refers to unknown outer variable " + a, token.NoPos})
 		}
 		if strings.HasSuffix(a, "@loop") {
 			if t, ok := ce.st.ghosts[a]; ok {
